@@ -315,6 +315,60 @@ Example C12_judge_real_rejects_scope :
 Proof. exact judge_real_rejects_scope. Qed.
 Print Assumptions C12_judge_real_rejects_scope.
 
+(** ** Owner deletion: controllers.FreeCacheAndRemoveFinalizer (controllers.go:89-98) = Cache.Free, then -
+    only if that succeeded - the finalizer patch, whose answer is adversarial *)
+
+(** Whenever the helper lets go of the owner - it returns nil, or its patch reaches the API server at all
+    (applied, response lost, or answered NotFound because the owner is already gone) - Cache.Free has run
+    and succeeded: the owner is in no owner set and exactly the informers nobody else needs are stopped
+    (both models, from any state, any visiting order). *)
+Theorem C12_helper_frees_before_finalizer_goes :
+  forall fixed s o out order has_fin p s' fo sent r,
+    free_and_remove_finalizer (stepf fixed) s o out order has_fin p = (s', fo, sent, r) ->
+    sent = true \/ r = RetNil ->
+    stepf fixed s (Free o out order) = (s', fo) /\ o_err fo = ErrNone /\
+    (forall g, owners s' g = rem o (owners s g)) /\
+    (forall g, ~ In o (owners s' g)) /\
+    (forall g, running s' g <-> running s g /\ ~ (In o (owners s g) /\ rem o (owners s g) = [])).
+Proof. exact helper_frees_before_finalizer_goes. Qed.
+Print Assumptions C12_helper_frees_before_finalizer_goes.
+
+(** When Free fails no patch is sent: the finalizer stays and the owner is reconciled again. *)
+Theorem C12_helper_failed_free_keeps_finalizer :
+  forall fixed s o out order has_fin p s' fo sent r,
+    free_and_remove_finalizer (stepf fixed) s o out order has_fin p = (s', fo, sent, r) ->
+    o_err fo <> ErrNone -> sent = false /\ r = RetFreeErr.
+Proof. exact helper_failed_free_keeps_finalizer. Qed.
+Print Assumptions C12_helper_failed_free_keeps_finalizer.
+
+(** An owner that no longer exists (patch answered NotFound) has been freed. *)
+Theorem C12_helper_owner_gone_is_freed :
+  forall fixed s o out order s' fo sent r,
+    free_and_remove_finalizer (stepf fixed) s o out order true patch_not_found = (s', fo, sent, r) ->
+    o_err fo = ErrNone -> sent = true /\ (forall g, ~ In o (owners s' g)).
+Proof. exact helper_owner_gone_is_freed. Qed.
+Print Assumptions C12_helper_owner_gone_is_freed.
+
+(** The monitor applied to runs of the real helper accepts the model of the current cache.go (all
+    sequences of cache operations, helper calls with any patch answer, EnsureCachedFinalizer calls). *)
+Theorem C12_monitor_fin_sound_fixed :
+  forall handlers kinds ins,
+    monitor (handlers, kinds, fin_to_steps (fin_steps_of true kinds (init handlers) ins)) = true.
+Proof. exact monitor_fin_sound_fixed. Qed.
+Print Assumptions C12_monitor_fin_sound_fixed.
+
+(** ... and rejects a helper that patches first and gives up on NotFound without freeing. *)
+Example C12_judge_fin_rejects_unfreed_owner :
+  let pre := steps_of true [0; 1] (init [0; 1]) [Watch 0 0 ok] in
+  judge_fin ([0; 1], [0; 1],
+             map (fun p => (FOp (fst p), FObs (snd p) false RetNil)) pre ++
+             [(FFinalize 0 ok true patch_not_found,
+               FObs (Obs ErrNone [] None [(0, Some [0]); (1, None)]) true RetPatchErr);
+              (FOp (Get 0), FObs (Obs ErrNone [EGet 0 true] None [(0, Some [0]); (1, None)]) false RetNil)])
+  = (false, false, false, true, false, false).
+Proof. exact judge_fin_rejects_unfreed_owner. Qed.
+Print Assumptions C12_judge_fin_rejects_unfreed_owner.
+
 (** ** The run-time monitor used on the implementation's observations accepts every behaviour of the
     model of the code as it is on start-failure-free sequences, and every behaviour of the repair
     candidate. *)
